@@ -17,6 +17,7 @@ from typing import Any, Dict, Hashable, List, Optional, Tuple
 SHAPE: Any = None
 TWIN: bool = False          # reachability twin: the final assertion point answers False
 TALLY: set = set()          # pattern D: concrete decision vectors the body was run with
+OBSERVED: Dict[str, int] = {}  # what the explored runs looked like (counts per kind), reported in the evidence
 SKIPPED: List[Tuple[str, Any]] = []   # decision vectors skipped because of an *open* known finding
 OPEN_FINDINGS: List[Dict[str, Any]] = []   # filled by the driver from known_findings.json
 
@@ -63,6 +64,10 @@ def pick_bool(v: Any) -> bool:
 
 def tally(vec: Hashable) -> None:
     TALLY.add(vec)
+
+
+def observe(kind: str, n: int = 1) -> None:
+    OBSERVED[kind] = OBSERVED.get(kind, 0) + n
 
 
 def known(fn_name: str, env: Dict[str, Any]) -> Optional[str]:
